@@ -187,6 +187,31 @@ def emit_family(gname, mandatory, optional, cells, aliases=None, containers=("Bo
                         w("    drop(imp);")
                     w("    Ok(digest(&(%d, acc)))" % (1 if expect else 0))
                     w("}")
+    # the consuming macros applied to an operand EXPRESSION with a side effect (a constructor call): evaluated exactly once
+    for en in subsets(optional):
+        ty = "%sImp%s" % (gname, "".join(en) or "None")
+        for req in subsets(optional):
+            if not req or "Box" not in containers:
+                continue
+            expect = all(r in en for r in req)
+            impl_list = " + ".join(req)
+            for op in ("cast", "into"):
+                fname = "cell_%s_%s_%s_box_%s_expr" % (gname.lower(), "".join(en).lower() or "none", "".join(req).lower(), op)
+                cells.append((fname, gname, en, req, "Box", op + "_expr", expect))
+                w("pub fn %s() -> Result<u64, (String, String)> {" % fname)
+                w("    let what = \"group %s built from a type enabling {%s}, %s!(<constructor call> impl %s)\";" % (gname, ",".join(en), op, impl_list))
+                w("    let drops = DropScope::new();")
+                w("    let made = ::std::cell::Cell::new(0u32);")
+                w("    let make = || { made.set(made.get() + 1); group_obj!(%s::new(7) as %s) };" % (ty, gname))
+                w("    let r = %s!(make() impl %s);" % (op, impl_list))
+                w("    let ok = r.is_some();")
+                w("    drop(r);")
+                w("    if made.get() != 1 { return Err((\"cast:operand_evaluations\".into(), format!(\"{}: the operand expression was evaluated {} times\", what, made.get()))); }")
+                w("    if ok != %s { return Err((\"cast:decision\".into(), format!(\"{}: returned {}, expected %s\", what, if ok { \"Some\" } else { \"None\" }))); }" % (str(expect).lower(), "Some" if expect else "None"))
+                w("    let bad = drops.not_equal(1);")
+                w("    if !bad.is_empty() { return Err((\"cast:drop_count\".into(), format!(\"{}: payloads {:?} were not dropped exactly once\", what, bad))); }")
+                w("    Ok(digest(&(%d, made.get())))" % (1 if expect else 0))
+                w("}")
     return "\n".join(out)
 
 
